@@ -9,6 +9,7 @@ import (
 	"encoding/json"
 	"flag"
 	"os"
+	"reflect"
 	"sort"
 
 	"github.com/mfcochauxlaberge/jsonapi"
@@ -75,9 +76,10 @@ type rObj struct {
 }
 
 type rWorld struct {
-	objs []rObj
-	km   kindMap
-	tb   *vtable
+	objs   []rObj
+	km     kindMap
+	tb     *vtable
+	noFrom bool
 }
 
 func (w *rWorld) project() []rEntry {
@@ -127,10 +129,18 @@ func (w *rWorld) apply(op rOp) (ret string, applicable bool) {
 		}
 	}
 	applicable = true
+	sameDefs, leak := true, false
 	p, _ := catch(func() {
 		switch op.Op {
 		case "New":
-			w.objs = append(w.objs, rObj{impl: op.Impl, res: newRes(op.Impl, op.TName, op.Fields, w.km)})
+			res := newRes(op.Impl, op.TName, op.Fields, w.km)
+			if sr, ok := res.(*jsonapi.SoftResource); ok && w.noFrom {
+				for k, r := range sr.Type.Rels {
+					r.FromType = ""
+					sr.Type.Rels[k] = r
+				}
+			}
+			w.objs = append(w.objs, rObj{impl: op.Impl, res: res})
 		case "Set":
 			defs := projDefs(o.res.Attrs(), o.res.Rels(), w.km)
 			d, ok := defs[op.F]
@@ -140,6 +150,11 @@ func (w *rWorld) apply(op rOp) (ret string, applicable bool) {
 			}
 			if op.Untyped && op.V.Nil {
 				o.res.Set(op.F, nil)
+			} else if op.Untyped && d.Kind == "attr" && !d.Null && w.km.real(d.K) == jsonapi.AttrTypeBytes {
+				o.res.Set(op.F, []byte(nil)) // an empty byte string given as a nil slice
+			} else if op.Untyped {
+				applicable = false
+				return
 			} else {
 				if d.Kind == "attr" && !op.V.Nil && op.V.R >= w.tb.nranks(w.km.real(d.K)) {
 					applicable = false
@@ -150,12 +165,32 @@ func (w *rWorld) apply(op rOp) (ret string, applicable bool) {
 		case "SetID":
 			o.res.Set("id", op.ID)
 		case "Copy":
-			w.objs = append(w.objs, rObj{impl: o.impl, res: o.res.(jsonapi.Copier).Copy()})
+			cp := o.res.(jsonapi.Copier).Copy()
+			sameDefs = reflect.DeepEqual(normDefs(o.res.Attrs(), o.res.Rels()), normDefs(cp.Attrs(), cp.Rels()))
+			w.objs = append(w.objs, rObj{impl: o.impl, res: cp})
 		case "NewLike":
-			w.objs = append(w.objs, rObj{impl: o.impl, res: o.res.(jsonapi.Copier).New()})
+			nw := o.res.(jsonapi.Copier).New()
+			sameDefs = reflect.DeepEqual(normDefs(o.res.Attrs(), o.res.Rels()), normDefs(nw.Attrs(), nw.Rels()))
+			w.objs = append(w.objs, rObj{impl: o.impl, res: nw})
 		case "TypeCopy":
-			t := o.res.GetType().Copy()
+			src := o.res.GetType()
+			t := src.Copy()
+			sameDefs = reflect.DeepEqual(normDefs(src.Attrs, src.Rels), normDefs(t.Attrs, t.Rels)) && t.Name == src.Name
 			w.objs = append(w.objs, rObj{impl: "type", typ: &t})
+		case "TypeEdit":
+			// edit the maps of the Type value returned by GetType(), look at everybody else, undo
+			before := w.projectOthers(op.H)
+			t := o.res.GetType()
+			if t.Attrs == nil || t.Rels == nil {
+				applicable = false
+				return
+			}
+			t.Attrs["zz9"] = jsonapi.Attr{Name: "zz9", Type: jsonapi.AttrTypeBool}
+			t.Rels["zz8"] = jsonapi.Rel{FromName: "zz8", FromType: t.Name, ToType: "tt"}
+			after := w.projectOthers(op.H)
+			delete(t.Attrs, "zz9")
+			delete(t.Rels, "zz8")
+			leak = !reflect.DeepEqual(before, after)
 		case "MutSlice":
 			if _, ok := o.res.Attrs()[op.F]; !ok {
 				if _, ok := o.res.Rels()[op.F]; !ok {
@@ -224,10 +259,43 @@ func (w *rWorld) apply(op rOp) (ret string, applicable bool) {
 			infra("unknown resource op %q", op.Op)
 		}
 	})
-	if p {
+	switch {
+	case p:
 		return "panic", applicable
+	case !sameDefs:
+		return "defs-differ", applicable // the copy / new instance does not have the source's definitions
+	case leak:
+		return "leak", applicable // an edit of this object's type maps showed in another object
 	}
 	return "ok", applicable
+}
+
+// normDefs: the full attribute and relationship definitions (nil and empty maps alike)
+func normDefs(a map[string]jsonapi.Attr, r map[string]jsonapi.Rel) [2]any {
+	aa, rr := map[string]jsonapi.Attr{}, map[string]jsonapi.Rel{}
+	for k, v := range a {
+		aa[k] = v
+	}
+	for k, v := range r {
+		rr[k] = v
+	}
+	return [2]any{aa, rr}
+}
+
+// projectOthers: every live object but h, by exposed definitions
+func (w *rWorld) projectOthers(h int) []any {
+	var out []any
+	for i, o := range w.objs {
+		if i == h-1 {
+			continue
+		}
+		if o.impl == "type" {
+			out = append(out, normDefs(o.typ.Attrs, o.typ.Rels))
+		} else {
+			out = append(out, normDefs(o.res.Attrs(), o.res.Rels()))
+		}
+	}
+	return out
 }
 
 func buildEntry(e rEntry, impl string, km kindMap, tb *vtable) jsonapi.Resource {
@@ -271,7 +339,7 @@ func runResourceCase(c rCase) (ev rEvent, ok bool) {
 		}
 		return ev, true
 	}
-	w := &rWorld{km: km, tb: tb}
+	w := &rWorld{km: km, tb: tb, noFrom: c.Var.NoFrom}
 	for _, op := range c.Hist {
 		if _, app := w.apply(op); !app {
 			return ev, false // the history itself is not realisable under this variant
@@ -362,7 +430,7 @@ func resourceMain(args []string) {
 	}
 	w := newEvWriter(*out, 40000)
 	variant := func() cVariant {
-		v := cVariant{Shift: rng.Intn(len(nonBool)), Table: rng.Intn(3)}
+		v := cVariant{Shift: rng.Intn(len(nonBool)), Table: rng.Intn(3), NoFrom: rng.Intn(3) == 0}
 		if rng.Intn(2) == 0 {
 			v.Shift = 0 // the byte-string kinds sit at shift 0
 		}
